@@ -333,7 +333,7 @@ impl Part for CascadePart {
             .boxed()
     }
     fn cases(&self, tier: Tier) -> u64 {
-        tier.pick(3_000_000, 60_000_000)
+        tier.pick(6_000_000, 60_000_000)
     }
     fn exec(&self, c: &C18Case, out: &mut CaseOut) -> Result<(), Fail> {
         exec(c, out)
